@@ -19,6 +19,19 @@ theorem targetOk_zeroVal (env : Env) (n : Nat) (ty : Ty) (h : isStructTy ty = fa
     | (simp [isStructTy] at h; done)
     | (rw [zeroVal.eq_def]; simp [targetOk, scalarZero])
 
+/-- the value `ResetDefault` assigns to a non-struct member has the member's type -/
+theorem targetOk_defaultOf (env : Env) (F : Nat) (f : Field) (hty : isStructTy f.ty = false)
+    (hd : ∀ d, f.dflt = some d → targetOk env f.ty d = true) :
+    targetOk env f.ty (defaultOf env F f) = true := by
+  cases hdf : f.dflt with
+  | some d => rw [defaultOf_dflt env F f d hdf]; exact hd d hdf
+  | none =>
+    cases harr : isArrStructTy f.ty with
+    | false => rw [defaultOf_plain env F f hdf harr]; exact targetOk_zeroVal env _ _ hty
+    | true =>
+      cases hft : f.ty <;> rw [hft] at harr <;> simp [isArrStructTy] at harr
+      simp [targetOk]
+
 theorem resetDefault_zero (env : Env) (fs : List Field) (vs : List Val) :
     resetDefault env 0 fs vs = vs := by
   rw [resetDefault.eq_def]
